@@ -12,6 +12,26 @@ TRUSTED_COMMON = [
 ]
 
 PROPS = {
+    "C09": {
+        "coq": "C09.v",
+        "harness": "c09",
+        "gen": ["headers"],
+        "design_ref": "DESIGN.md §8 C09",
+        "technique": "Rocq proof (base64 decode∘encode = id, canonical form, text types both directions, no panic) + exhaustive/sampled model/implementation correspondence",
+        "level_text": "Machine-checked for all byte strings: decode_vec (encode bs) = Ok bs; decode_vec s = Ok bs -> encode bs = s (so padding, foreign alphabet, whitespace, non-canonical trailing bits, length = 1 mod 4 are rejected); the 6-bit alphabet equals RFC 4648 §5 (256-case sweep); parse∘print and print∘parse for key text / wrapped / sealed keys, 33-byte key ids and tokens (only alias: one trailing '.'); no parser panics. The model mirrors base64.rs function by function (i16 masks included) and is compared with the real FromStr/Display/serde of all 17 text types x 6 backends.",
+        "level_note": "Trusted: Coq kernel; the model's faithfulness rests on the correspondence: exhaustive over all strings of <=2 characters (131-character set incl. multi-byte) and 3-character strings over alphabet+specials, every character at the last two positions of every tail length, plus canonical encodings and mutations through every text type; error kinds compared. serde clause is decided by the correspondence only (collect_str / visit_str are serde's). Key<V,K> re-encoding (PEM->DER) is C08's subject.",
+        "trusted": [],
+    },
+    "C10": {
+        "coq": "C10.v",
+        "harness": "c10",
+        "gen": ["headers"],
+        "design_ref": "DESIGN.md §8 C10",
+        "technique": "Rocq proof over the header table regenerated from source (constants = spec, prefix-freeness by vm_compute, general cross-rejection lemma) + exhaustive 102x102 parser cross product",
+        "level_text": "The header constants are re-read from /repo on every run (translator) and proved equal to the PASETO/PASERK constants; all 56 full prefixes end in '.' and are pairwise prefix-incomparable (vm_compute over the regenerated table); general theorem: a string accepted under one prefix is rejected with the format error by every parser stripping a different prefix. Every ordered pair of the 102 real parsers is exercised.",
+        "level_note": "Trusted: Coq kernel, tools/extract_facts.py (regex/brace reader of `impl Version/KeyType/SealingKey` const items and of the header constants named in each Display/FromStr; failure to extract is reported as a broken tie). Key-length and header-rewrite clauses are decided with C08 / C06 and re-stated there.",
+        "trusted": ["translator tools/extract_facts.py (headers inventory)"],
+    },
     "C15": {
         "coq": "C15.v",
         "harness": "c15",
